@@ -30,6 +30,8 @@ import SharkVerif.Lemmas.RepartitionLoop
 import SharkVerif.Lemmas.BinarySub
 import SharkVerif.Lemmas.SortedRuns
 import SharkVerif.Lemmas.PureBatches
+import SharkVerif.Lemmas.DatasetSim
+import SharkVerif.Lemmas.DatasetWrite
 namespace SharkVerif.C03
 open SharkVerif.CheckedNat SharkVerif.Gen.BatchArith SharkVerif.BatchArith SharkVerif.Dataset
 
@@ -573,6 +575,38 @@ theorem indexedSubset_pairs (d d' : LabeledData ι κ) (idx : List Nat) (hd : WF
 /-- `DataView(dataset)` lists every (input, label) pair of a well-formed dataset, in order -/
 theorem view_lists_dataset (d : LabeledData ι κ) (h : WF d) : (View.ofDataset d).elements = (pairs d).map some := by
   rw [view_elements d h, flat_eq_pairs d h]
+
+theorem view_go_index : ∀ (sizes : List Nat) (b idx0 : Nat),
+    (View.ofDataset.go sizes b idx0).map (·.datasetIndex) = List.range' idx0 sizes.sum := by
+  intro sizes
+  induction sizes with
+  | nil => intro b idx0; simp [View.ofDataset.go]
+  | cons s rest ih =>
+    intro b idx0
+    simp only [View.ofDataset.go, List.map_append, List.map_map, ih, List.sum_cons]
+    rw [← List.range'_append_1]
+    congr 1
+    apply List.ext_getElem (by simp)
+    intro i h1 h2
+    simp
+
+/-- `DataView::index(i)`: the view of a dataset numbers its elements 0 … n-1 in order, and a subset reports the dataset
+indices of the elements it picked (`subset(v, idx).index(j) = v.index(idx[j])`) -/
+theorem view_index (d : LabeledData ι κ) (v w : View ι κ) (idx : List Nat) (h : v.subset idx = .ok w) :
+    (View.ofDataset d).indices.map (·.datasetIndex) = List.range d.numberOfElements ∧
+    w.indices.map (fun ix => some ix.datasetIndex) = idx.map (fun i => (v.indices[i]?).map (·.datasetIndex)) := by
+  constructor
+  · simp only [View.ofDataset, view_go_index, LabeledData.numberOfElements, Data.numberOfElements, LabeledData.partitioning]
+    exact List.range_eq_range'.symm
+  · simp only [View.subset, bind_ok, pure_ok] at h
+    obtain ⟨r, hr, rfl⟩ := h
+    simp only
+    induction idx generalizing r with
+    | nil => simp [List.mapM_nil, pure, Except.pure] at hr; subst hr; simp
+    | cons i idx ih =>
+      simp only [List.mapM_cons, bind_ok, ofOpt_ok, pure_ok] at hr
+      obtain ⟨x, hx, r', hr', rfl⟩ := hr
+      simp [hx, ih r' hr']
 
 /-- **view_subset_comp**: element j of `subset(view, idx)` is element `idx[j]` of the view; hence a subset of a
 subset is the subset by the composed index vector -/
@@ -1337,6 +1371,510 @@ theorem binarySubProblem_after_repartitionByClass (d d1 d2 : CData ι) (bs : Nat
   obtain ⟨sub, hsub, htr⟩ := binarySubProblem_exact d1 (fun b hb => (hpure b hb).1) c0 c1 hc cls hcls hs d2 h2
   exact ⟨cls, hs, hcls, hpure, sub, hsub, htr⟩
 
+/-! ## H. WeightedLabeledData: the weight follows its element -/
+
+section Weighted
+variable {ω : Type}
+
+/-- gathering two lists by one index vector gathers their zip -/
+theorem gather_zip {α β : Type} (a a' : List α) (b b' : List β) (idx : List Nat)
+    (ha : a'.map some = idx.map (a[·]?)) (hb : b'.map some = idx.map (b[·]?)) :
+    (List.zip a' b').map some = idx.map ((List.zip a b)[·]?) := by
+  apply List.ext_getElem?
+  intro j
+  have h1 := congrArg (·[j]?) ha
+  have h2 := congrArg (·[j]?) hb
+  simp only [List.getElem?_map, getElem?_zip_bind] at h1 h2 ⊢
+  cases hlj : idx[j]? with
+  | none =>
+    simp only [hlj, Option.map_none, Option.map_eq_none_iff] at h1 h2 ⊢
+    simp [h1]
+  | some x =>
+    simp only [hlj, Option.map_some] at h1 h2 ⊢
+    cases hA' : a'[j]? <;> cases hB' : b'[j]? <;> cases hA : a[x]? <;> cases hB : b[x]? <;> simp_all
+
+/-- a gather by a permutation of all positions is a permutation -/
+theorem perm_of_gather {α : Type} (l l' : List α) (idx : List Nat) (h : l'.map some = idx.map (l[·]?))
+    (hp : idx.Perm (List.range l.length)) : l'.Perm l := by
+  have h2 : (idx.map (l[·]?)).Perm ((List.range l.length).map (l[·]?)) := hp.map _
+  have h3 : (List.range l.length).map (l[·]?) = l.map some := by
+    apply List.ext_getElem?
+    intro j
+    by_cases hj : j < l.length
+    · simp [hj]
+    · simp [hj]
+  rw [← h, h3] at h2
+  have := h2.filterMap id
+  simpa [List.filterMap_map] using this
+
+/-- data and weights are batched alike -/
+def WWF (d : WeightedData ι κ ω) : Prop := WF d.data ∧ d.data.inputs.partitioning = d.weights.partitioning
+
+/-- the ((input, label), weight) triples -/
+def triples (d : WeightedData ι κ ω) : List ((ι × κ) × ω) := List.zip (pairs d.data) d.weights.flat
+
+def WInv (d : WeightedData ι κ ω) : Prop := WWF d ∧ allPos d.data.inputs.partitioning
+
+theorem weighted_repartition (d d' : WeightedData ι κ ω) (sizes : List Nat) (h : d.repartition sizes = .ok d') :
+    WWF d' ∧ triples d' = triples d ∧ d'.data.inputs.partitioning = sizes ∧ allPos sizes := by
+  simp only [WeightedData.repartition, bind_ok, pure_ok] at h
+  obtain ⟨x, hx, wts, hw, rfl⟩ := h
+  obtain ⟨hwf, hp, hs⟩ := repartition_pairs d.data x sizes hx
+  obtain ⟨hwf', hwp, _⟩ := repartition_flat d.weights wts sizes hw
+  have hs' : x.inputs.partitioning = sizes := hs
+  simp only [Data.repartition, bind_ok, require_ok, pure_ok, Bool.and_eq_true] at hw
+  obtain ⟨_, _, _, ⟨_, hall⟩, _⟩ := hw
+  exact ⟨⟨hwf, by rw [hs', hwp]⟩, by simp [triples, hp, hwf'], hs', allPos_of_all sizes hall⟩
+
+theorem weighted_splitBatch (d d' : WeightedData ι κ ω) (b k : Nat) (hd : WWF d) (h : d.splitBatch b k = .ok d') :
+    WWF d' ∧ triples d' = triples d ∧ d'.data.inputs.partitioning = splitPart d.data.inputs.partitioning b k ∧
+      (∀ s, d.data.inputs.partitioning[b]? = some s → k ≤ s) := by
+  simp only [WeightedData.splitBatch, bind_ok, pure_ok] at h
+  obtain ⟨x, hx, wts, hw, rfl⟩ := h
+  obtain ⟨hwf, hpart, hk⟩ := splitBatch_WF d.data x b k hd.1 hx
+  have hp := splitBatch_pairs d.data x b k hx
+  obtain ⟨hwp, _⟩ := splitBatch_partitioning _ _ _ _ hw
+  refine ⟨⟨hwf, by rw [hpart, hwp, hd.2]⟩, ?_, hpart, hk⟩
+  simp [triples, hp, (splitBatch_flat _ _ _ _ hw).1]
+
+theorem weighted_reorder (d d' : WeightedData ι κ ω) (idx : List Nat) (hd : WInv d) (h : d.reorderElements idx = .ok d') :
+    WInv d' ∧ (triples d').map some = (idx.take d.numberOfElements).map ((triples d)[·]?) := by
+  simp only [WeightedData.reorderElements, bind_ok, pure_ok] at h
+  obtain ⟨x, hx, wts, hw, rfl⟩ := h
+  obtain ⟨⟨hwf, hiw⟩, hne⟩ := hd
+  obtain ⟨hwf', hp⟩ := reorderElements_pairs d.data x idx hwf hne hx
+  obtain ⟨hwflat, hwp, _⟩ := reorderElements_flat d.weights wts idx (hiw ▸ hne) hw
+  have hxp : x.inputs.partitioning = d.data.inputs.partitioning := by
+    simp only [LabeledData.reorderElements, bind_ok, pure_ok] at hx
+    obtain ⟨i, hi, l, _, rfl⟩ := hx
+    exact (reorderElements_flat _ _ _ hne hi).2.1
+  have hn : d.weights.numberOfElements = d.data.numberOfElements := by
+    simp only [Data.numberOfElements, LabeledData.numberOfElements]; rw [hiw]
+  rw [hn] at hwflat
+  refine ⟨⟨⟨hwf', by rw [hxp, hwp, hiw]⟩, by rw [hxp]; exact hne⟩, ?_⟩
+  exact gather_zip _ _ _ _ _ hp hwflat
+
+/-- the structure-changing operations on one weighted dataset; `reorder` with a permutation is `shuffle()` -/
+def WOp.apply (d : WeightedData ι κ ω) : Op → R (WeightedData ι κ ω)
+  | .repartition sizes => d.repartition sizes
+  | .splitBatch b k => d.splitBatch b k
+  | .reorder idx => d.reorderElements idx
+
+def WOp.valid (d : WeightedData ι κ ω) : Op → Prop
+  | .reorder idx => idx.Perm (List.range d.numberOfElements)
+  | _ => True
+
+inductive WReach : WeightedData ι κ ω → WeightedData ι κ ω → Prop where
+  | refl (d : WeightedData ι κ ω) : WReach d d
+  | step {d d' d'' : WeightedData ι κ ω} (op : Op) : WReach d d' → WOp.valid d' op → WOp.apply d' op = .ok d'' → WReach d d''
+
+theorem triples_length (d : WeightedData ι κ ω) (h : WWF d) : (triples d).length = d.numberOfElements := by
+  have h1 := pairs_length d.data h.1
+  have h2 : d.weights.flat.length = d.numberOfElements := by
+    rw [← Data.numberOfElements_eq]
+    simp only [Data.numberOfElements, WeightedData.numberOfElements, LabeledData.numberOfElements]; rw [h.2]
+  simp [triples, h1, h2, WeightedData.numberOfElements]
+
+theorem weighted_step_preserves (d d' : WeightedData ι κ ω) (op : Op) (hinv : WInv d) (hv : WOp.valid d op)
+    (h : WOp.apply d op = .ok d') : WInv d' ∧ (triples d').Perm (triples d) := by
+  cases op with
+  | repartition sizes =>
+    obtain ⟨hw, ht, hs, hall⟩ := weighted_repartition d d' sizes h
+    exact ⟨⟨hw, by rw [hs]; exact hall⟩, by rw [ht]⟩
+  | splitBatch b k =>
+    obtain ⟨hw, ht, hs, hk⟩ := weighted_splitBatch d d' b k hinv.1 h
+    exact ⟨⟨hw, by rw [hs]; exact allPos_splitPart _ _ _ hinv.2 hk⟩, by rw [ht]⟩
+  | reorder idx =>
+    obtain ⟨hi, ht⟩ := weighted_reorder d d' idx hinv h
+    refine ⟨hi, ?_⟩
+    have hv' : idx.Perm (List.range d.numberOfElements) := hv
+    have hlen : idx.length = d.numberOfElements := by simpa using hv'.length_eq
+    rw [← hlen, List.take_length] at ht
+    exact perm_of_gather _ _ idx ht (by rw [triples_length d hinv.1]; exact hv')
+
+/-- **every finite history** of repartition / splitBatch / shuffle operations on a weighted labelled dataset keeps inputs,
+labels and weights in one partitioning with non-empty batches and keeps the multiset of ((input, label), weight) triples:
+a weight is never separated from its element -/
+theorem weighted_ops_preserve_triples (d d' : WeightedData ι κ ω) (hinv : WInv d) (h : WReach d d') :
+    WInv d' ∧ (triples d').Perm (triples d) := by
+  induction h with
+  | refl => exact ⟨hinv, List.Perm.refl _⟩
+  | step op _ hv ha ih =>
+    obtain ⟨hi, hp⟩ := ih
+    obtain ⟨hi', hp'⟩ := weighted_step_preserves _ _ op hi hv ha
+    exact ⟨hi', hp'.trans hp⟩
+
+theorem weights_flat_length (d : WeightedData ι κ ω) (h : WWF d) : (pairs d.data).length = d.weights.flat.length := by
+  rw [pairs_length d.data h.1, ← Data.numberOfElements_eq]
+  simp only [LabeledData.numberOfElements, Data.numberOfElements]
+  rw [h.2]
+
+/-- `append` of weighted datasets concatenates the triples; data and weights stay batched alike -/
+theorem weighted_append (d o : WeightedData ι κ ω) (hd : WWF d) (ho : WWF o) :
+    WWF (d.append o) ∧ triples (d.append o) = triples d ++ triples o := by
+  refine ⟨⟨?_, ?_⟩, ?_⟩
+  · show (d.data.inputs.append o.data.inputs).partitioning = (d.data.labels.append o.data.labels).partitioning
+    have h1 : d.data.inputs.partitioning = d.data.labels.partitioning := hd.1
+    have h2 : o.data.inputs.partitioning = o.data.labels.partitioning := ho.1
+    simp only [Data.append, Data.partitioning, List.map_append] at h1 h2 ⊢
+    rw [h1, h2]
+  · show (d.data.inputs.append o.data.inputs).partitioning = (d.weights.append o.weights).partitioning
+    have h1 := hd.2
+    have h2 := ho.2
+    simp only [Data.append, Data.partitioning, List.map_append] at h1 h2 ⊢
+    rw [h1, h2]
+  · simp only [triples, WeightedData.append, append_pairs _ _ hd.1, (append_flat _ _).1]
+    exact List.zip_append (weights_flat_length d hd)
+
+/-- `splice` of a weighted dataset: both parts keep data and weights batched alike, their triples concatenate to the original -/
+theorem weighted_splice (d l r : WeightedData ι κ ω) (b : Nat) (hd : WWF d) (h : d.splice b = .ok (l, r)) :
+    WWF l ∧ WWF r ∧ triples l ++ triples r = triples d := by
+  simp only [WeightedData.splice, bind_ok, pure_ok, Prod.mk.injEq] at h
+  obtain ⟨⟨dl, dr⟩, hdata, ⟨wl, wr⟩, hw, x, hmk, rfl, rfl⟩ := h
+  simp only [WeightedData.mk'] at hmk
+  split at hmk
+  · simp only [Except.ok.injEq] at hmk; subst hmk
+    obtain ⟨hwl, hwr, hpairs, hlp⟩ := splice_pairs d.data dl dr b hd.1 hdata
+    obtain ⟨hwp, hwq⟩ := splice_partitioning _ _ _ _ hw
+    have hrp : dr.inputs.partitioning = d.data.inputs.partitioning.drop b := by
+      simp only [LabeledData.splice, bind_ok, pure_ok, Prod.mk.injEq] at hdata
+      obtain ⟨⟨il, ir⟩, hi, ⟨ll, lr⟩, _, y, hy, rfl, rfl⟩ := hdata
+      simp only [LabeledData.mk'] at hy
+      split at hy
+      · simp only [Except.ok.injEq] at hy; subst hy
+        exact (splice_partitioning _ _ _ _ hi).2
+      · simp at hy
+    have hlp' : dl.inputs.partitioning = d.data.inputs.partitioning.take b := hlp
+    have wl_ : WWF (⟨dl, wl⟩ : WeightedData ι κ ω) := ⟨hwl, by show dl.inputs.partitioning = wl.partitioning; rw [hlp', hwp, hd.2]⟩
+    have wr_ : WWF (⟨dr, wr⟩ : WeightedData ι κ ω) := ⟨hwr, by show dr.inputs.partitioning = wr.partitioning; rw [hrp, hwq, hd.2]⟩
+    refine ⟨wl_, wr_, ?_⟩
+    simp only [triples]
+    rw [← hpairs, ← (splice_flat _ _ _ _ hw).1]
+    exact (List.zip_append (weights_flat_length _ wl_)).symm
+  · simp at hmk
+
+/-- `indexedSubset` of a weighted dataset applies one index list to inputs, labels and weights -/
+theorem weighted_indexedSubset (d d' : WeightedData ι κ ω) (idx : List Nat) (hd : WWF d) (h : d.indexedSubset idx = .ok d') :
+    WWF d' := by
+  simp only [WeightedData.indexedSubset, bind_ok, pure_ok] at h
+  obtain ⟨x, hx, wts, hw, rfl⟩ := h
+  obtain ⟨hwf, h1, _, _⟩ := indexedSubset_pairs d.data x idx hd.1 hx
+  refine ⟨hwf, ?_⟩
+  have h2 := (indexedSubset_batches _ _ _ hw).1
+  have e1 : x.inputs.partitioning.map some = idx.map (d.data.inputs.partitioning[·]?) := by
+    have := congrArg (List.map (Option.map List.length)) h1
+    simpa [Data.partitioning, List.map_map, Function.comp_def] using this
+  have e2 : wts.partitioning.map some = idx.map (d.weights.partitioning[·]?) := by
+    have := congrArg (List.map (Option.map List.length)) h2
+    simpa [Data.partitioning, List.map_map, Function.comp_def] using this
+  rw [hd.2] at e1
+  have h4 := congrArg (List.filterMap id) (e1.trans e2.symm)
+  simpa [List.filterMap_map] using h4
+
+end Weighted
+
+/-! ## G. shared batches (`boost::shared_ptr`): structural operations never let one dataset change another -/
+
+section Sharing
+open SharkVerif.Dataset.Shared
+
+/-- **frame**: a container does not notice that other operations allocate batches (the heap only grows) -/
+theorem shared_frame {β : Type} (h e : Heap β) (p : PData) (hv : p.valid h) : p.resolve (h ++ e) = p.resolve h :=
+  resolve_append h e p hv
+
+/-- **every structural operation on shared batches** (copy, swap, makeIndependent, splitBatch, splice, repartition,
+splitAtElement, append, push_back, indexedSubset, reorderElements/shuffle, creation of a fresh dataset, transformInputs,
+transformLabels, DataView, view subsets) keeps all addresses valid and acts on the *values* of the slots exactly like the
+value-level operation of sections B–F acts on independent datasets -/
+theorem structural_op_simulates_values (w w' : World ι κ) (hv : w.Valid) (op : SOp ι κ) (h : op.run w = .ok w') :
+    w'.Valid ∧ op.runV w.absD = .ok w'.absD := World.SOp.simulates w w' hv op h
+
+/-- **every finite history** of such operations: sharing of batches is not observable -/
+theorem histories_simulate_values (ops : List (SOp ι κ)) (w w' : World ι κ) (hv : w.Valid) (h : runAll w ops = .ok w') :
+    w'.Valid ∧ runAllV w.absD ops = .ok w'.absD := runAll_simulates ops w w' hv h
+
+/-- the slots an operation may change -/
+def SOp.targets : SOp ι κ → List Nat
+  | .copy _ b => [b]
+  | .swap a b => [a, b]
+  | .indep a => [a]
+  | .splitBatch a _ _ => [a]
+  | .splice a b _ => [a, b]
+  | .repartition a _ => [a]
+  | .splitAt a b _ => [a, b]
+  | .append a _ => [a]
+  | .pushBack a _ _ => [a]
+  | .subset _ b _ => [b]
+  | .reorder a _ => [a]
+  | .store a _ => [a]
+  | .mapInputs _ b _ _ => [b]
+  | .mapLabels _ b _ _ => [b]
+  | .view _ _ => []
+  | .viewSubset _ _ _ => []
+
+theorem getElem?_set_ne' {α : Type} (l : List α) (a k : Nat) (x : α) (h : k ≠ a) : (l.set a x)[k]? = l[k]? := by
+  simp [List.getElem?_set, Ne.symm h]
+
+/-- value level: an operation changes the slots it names only -/
+theorem runV_frame (s s' : List (LabeledData ι κ)) (op : SOp ι κ) (h : op.runV s = .ok s') (k : Nat)
+    (hk : k ∉ SOp.targets op) : s'[k]? = s[k]? := by
+  cases op <;>
+    simp only [SOp.runV, SOp.targets, bind_ok, ofOpt_ok, require_ok, pure_ok, List.mem_cons, List.not_mem_nil, or_false,
+      not_or, List.mem_singleton] at h hk
+  case copy a b => obtain ⟨_, _, _, _, rfl⟩ := h; exact getElem?_set_ne' _ _ _ _ hk
+  case swap a b => obtain ⟨_, _, _, _, rfl⟩ := h; rw [getElem?_set_ne' _ _ _ _ hk.2, getElem?_set_ne' _ _ _ _ hk.1]
+  case indep a => obtain ⟨_, _, rfl⟩ := h; rfl
+  case splitBatch a b c => obtain ⟨_, _, _, _, rfl⟩ := h; exact getElem?_set_ne' _ _ _ _ hk
+  case splice a b c =>
+    obtain ⟨_, _, _, _, ⟨l, r⟩, _, rfl⟩ := h
+    rw [getElem?_set_ne' _ _ _ _ hk.2, getElem?_set_ne' _ _ _ _ hk.1]
+  case repartition a sz => obtain ⟨_, _, _, _, rfl⟩ := h; exact getElem?_set_ne' _ _ _ _ hk
+  case splitAt a b c =>
+    obtain ⟨_, _, _, _, ⟨l, r⟩, _, rfl⟩ := h
+    rw [getElem?_set_ne' _ _ _ _ hk.2, getElem?_set_ne' _ _ _ _ hk.1]
+  case append a b => obtain ⟨_, _, _, _, rfl⟩ := h; exact getElem?_set_ne' _ _ _ _ hk
+  case pushBack a b i => obtain ⟨_, _, _, _, _, _, _, _, rfl⟩ := h; exact getElem?_set_ne' _ _ _ _ hk
+  case subset a b idx => obtain ⟨_, _, _, _, _, _, rfl⟩ := h; exact getElem?_set_ne' _ _ _ _ hk
+  case reorder a idx => obtain ⟨_, _, _, _, rfl⟩ := h; exact getElem?_set_ne' _ _ _ _ hk
+  case store a x => obtain ⟨_, _, rfl⟩ := h; exact getElem?_set_ne' _ _ _ _ hk
+  case mapInputs a b f sh => obtain ⟨_, _, _, _, _, _, rfl⟩ := h; exact getElem?_set_ne' _ _ _ _ hk
+  case mapLabels a b f sh => obtain ⟨_, _, _, _, _, _, rfl⟩ := h; exact getElem?_set_ne' _ _ _ _ hk
+  case view => subst h; rfl
+  case viewSubset => subst h; rfl
+
+/-- **isolation**: a structural operation on shared batches leaves the value of every dataset it does not name unchanged --
+in particular every sibling that shares batches with the operand (copies, subsets, appended datasets, views' sources) -/
+theorem structural_op_isolation (w w' : World ι κ) (hv : w.Valid) (op : SOp ι κ) (h : op.run w = .ok w') (k : Nat)
+    (hk : k ∉ SOp.targets op) : w'.value k = w.value k := by
+  obtain ⟨_, hsim⟩ := World.SOp.simulates w w' hv op h
+  rw [World.value_eq, World.value_eq, runV_frame _ _ op hsim k hk]
+
+/-- the operations that re-seat batch pointers in place demand independence: `splitBatch`, `splice` and `repartition` succeed
+only if every batch pointer of the container has use-count 1 … -/
+theorem guarded_ops_need_independence {β : Type} (h : Heap β) (uc : Nat → Nat) (p : PData) (hv : p.valid h) :
+    (∀ b k h' p', Shared.splitBatch h uc p b k = .ok (h', p') → independent uc p = true) ∧
+    (∀ b l r, Shared.splice uc p b = .ok (l, r) → independent uc p = true) ∧
+    (∀ sizes h' p', Shared.repartition h uc p sizes = .ok (h', p') → independent uc p = true) :=
+  ⟨fun b k h' p' hs => (splitBatch_ext h h' uc p p' b k hv hs).choose_spec.2.2,
+   fun b l r hs => (splice_spec uc p l r b h hv hs).2.2.2,
+   fun sizes h' p' hs => (repartition_ext h h' uc p p' sizes hs).choose_spec.2.2⟩
+
+/-- … and on a shared container they throw ("Container is not Independent") -/
+theorem splitBatch_throws_on_shared {β : Type} (h : Heap β) (uc : Nat → Nat) (p : PData) (b k a : Nat)
+    (ha : p.ptrs[b]? = some a) (hk : k ≤ (cell h a).length) (hsh : independent uc p = false) :
+    Shared.splitBatch h uc p b k = .error .exception := by
+  simp [Shared.splitBatch, ha, ofOpt, require, hk, guardIndep, hsh, bind, Except.bind]
+
+/-- `makeIndependent` never changes the value of the dataset (it copies the batches iff some batch is shared) -/
+theorem makeIndependent_value (w w' : World ι κ) (hv : w.Valid) (a : Nat) (h : w.makeIndependent a = .ok w') (k : Nat) :
+    w'.value k = w.value k := by
+  obtain ⟨_, hsim⟩ := World.sim_indep w w' hv a h
+  simp only [SOp.runV, bind_ok, ofOpt_ok, pure_ok] at hsim
+  obtain ⟨_, _, hs⟩ := hsim
+  rw [World.value_eq, World.value_eq, ← hs]
+
+/-- **in-place writes** (`data.element(i) = x`, the only operations that overwrite an existing batch): a container that
+holds none of the writer's batches does not change -/
+theorem in_place_write_frame {β : Type} (h h' : Heap β) (p q : PData) (i : Nat) (x : β)
+    (hs : Shared.setElement h p i x = .ok h') (hdisj : ∀ a ∈ p.ptrs, a ∉ q.ptrs) : q.resolve h' = q.resolve h :=
+  (setElement_frame h h' p q i x hs hdisj).1
+
+/-- **copy-on-write discipline**: after `D[a].makeIndependent()`, writing through an element proxy of `D[a]` changes no
+other dataset -- whatever copies, subsets, appended datasets or views shared batches with it before -/
+theorem write_after_makeIndependent_isolated (w w1 w2 : World ι κ) (hv : w.Valid) (a i : Nat) (x : ι) (y : κ)
+    (h1 : w.makeIndependent a = .ok w1) (h2 : w1.setElement a i x y = .ok w2) (k : Nat) (hk : k ≠ a) :
+    w2.value k = w.value k := World.write_after_makeIndependent_isolated w w1 w2 hv a i x y h1 h2 k hk
+
+theorem labeled_repartition_loop_eq (d : LabeledData ι κ) (sizes : List Nat) :
+    d.repartitionByLoop sizes = d.repartition sizes := by
+  simp only [LabeledData.repartitionByLoop, LabeledData.repartition, repartition_loop_eq]
+
+/-- **class-wise repartitioning on shared batches** (`repartition` + `reorderElements` at the pointer level): the value of the
+dataset is what the value-level `repartitionByClass` of section F computes, no other dataset changes -/
+theorem repartitionByClass_simulates_values (w w' : World ι Nat) (hv : w.Valid) (a bs : Nat)
+    (h : w.repartitionByClass a bs = .ok w') :
+    w'.Valid ∧ Dataset.repartitionByClass (w.value a) bs = .ok (w'.value a) ∧ ∀ k, k ≠ a → w'.value k = w.value k := by
+  simp only [World.repartitionByClass, bind_ok, ofOpt_ok] at h
+  obtain ⟨counts, hc, ⟨x1, x2, sizes⟩, hbp, w1, hrep, labs, hlabs, hreo⟩ := h
+  obtain ⟨v1, s1⟩ := World.sim_repartition w w1 hv a sizes hrep
+  obtain ⟨v2, s2⟩ := World.sim_reorder w1 w' v1 a _ hreo
+  simp only [SOp.runV, bind_ok, ofOpt_ok, pure_ok] at s1 s2
+  obtain ⟨x, hx, xr, hxr, e1⟩ := s1
+  obtain ⟨y, hy, yr, hyr, e2⟩ := s2
+  have alt : a < w.absD.length := by
+    rcases Nat.lt_or_ge a w.absD.length with hlt | hge
+    · exact hlt
+    · rw [List.getElem?_eq_none hge] at hx; simp at hx
+  have hva : w.value a = x := by rw [World.value_eq, hx]; rfl
+  have hw1 : w1.value a = xr := by rw [World.value_eq, ← e1]; simp [alt]
+  have hyx : y = xr := by
+    rw [← e1] at hy
+    simp [alt] at hy
+    exact hy.symm
+  subst hyx
+  have alt1 : a < w1.absD.length := by rw [← e1]; simpa using alt
+  have hw' : w'.value a = yr := by rw [World.value_eq, ← e2]; simp [alt1]
+  refine ⟨v2, ?_, ?_⟩
+  · rw [hva] at hc
+    rw [hw1] at hlabs
+    rw [hva, hw']
+    simp only [Dataset.repartitionByClass, bind_ok, ofOpt_ok]
+    exact ⟨counts, hc, (x1, x2, sizes), hbp, y, by rw [← labeled_repartition_loop_eq]; exact hxr, labs, hlabs, hyr⟩
+  · intro k hk
+    rw [World.value_eq, World.value_eq, ← e2, ← e1]
+    simp [List.getElem?_set, Ne.symm hk]
+
+/-- witness that the hypothesis `makeIndependent` matters: without it the write shows in the copy -/
+theorem write_on_shared_changes_sibling_witness :
+    let w0 : World Nat Nat := { hi := [[1, 2, 3]], hl := [[7, 8, 9]], d := [⟨⟨[0], []⟩, ⟨[0], []⟩⟩, ⟨⟨[0], []⟩, ⟨[0], []⟩⟩], v := [] }
+    (w0.setElement 1 0 5 6).map (fun w => (w.value 0).flat) = .ok [(5, 6), (2, 8), (3, 9)] := by
+  intro w0
+  rfl
+
+end Sharing
+
+/-! ## I. boundary cases and index lists of any form -/
+
+/-- `binarySubProblem` is `indexedSubset` by the scanned batch index set followed by the relabelling (the two are the
+same four loops; the sharing model uses the index set to share the input batches) -/
+theorem binarySubProblem_eq_indexSet (d : CData ι) (c0 c1 : Nat) :
+    binarySubProblem d c0 c1 = (do
+      let idx ← binaryIndexSet d c0 c1
+      let sub ← d.indexedSubset idx
+      sub.transformLabels (fun l => if l = c1 then 1 else 0) []) := by
+  unfold binarySubProblem binaryIndexSet
+  simp only [bind_assoc, pure_bind]
+  congr 1; funext x
+  by_cases h1 : x.1.isEmpty = true
+  · simp only [h1, if_true]; rfl
+  · simp only [if_neg h1, bind_assoc]
+    congr 1; funext y
+    congr 1; funext z
+    by_cases h2 : z.1.isEmpty = true
+    · simp only [h2, if_true]; rfl
+    · simp only [if_neg h2, bind_assoc, pure_bind]
+
+/-- `indexedSubset(indices, subset, complement)` for index lists of **any** form (unsorted, with duplicates, empty, all):
+the subset holds the listed batches in the listed order (a batch listed twice appears twice), the complement holds exactly
+the batches not listed, each once, in ascending batch order -/
+theorem indexedSubset_complement_any (d s c : Data ε) (idx : List Nat) (h : d.indexedSubsetCompl idx = .ok (s, c)) :
+    s.flat = idx.flatMap (fun i => d.batches.getD i []) ∧
+    c.flat = (Data.complement idx d.numberOfBatches).flatMap (fun i => d.batches.getD i []) ∧
+    (∀ i, i ∈ Data.complement idx d.numberOfBatches ↔ (i < d.numberOfBatches ∧ i ∉ idx)) ∧
+    (Data.complement idx d.numberOfBatches).Pairwise (· < ·) := by
+  simp only [Data.indexedSubsetCompl, bind_ok, pure_ok, Prod.mk.injEq] at h
+  obtain ⟨s', hs, c', hc, rfl, rfl⟩ := h
+  refine ⟨(indexedSubset_flat d s' idx hs).1, (indexedSubset_flat d c' _ hc).1, (complement_spec idx _).1, ?_⟩
+  exact List.Pairwise.sublist List.filter_sublist List.pairwise_lt_range
+
+/-- the two-result `indexedSubset` applied to the inputs and to the labels of a well-formed dataset (any index list) yields
+two well-formed datasets: subset and complement pair every input batch with its label batch -/
+theorem indexedSubsetCompl_pairs (d : LabeledData ι κ) (idx : List Nat) (hd : WF d) (si ci : Data ι) (sl cl : Data κ)
+    (hi : d.inputs.indexedSubsetCompl idx = .ok (si, ci)) (hl : d.labels.indexedSubsetCompl idx = .ok (sl, cl)) :
+    WF ⟨si, sl⟩ ∧ WF ⟨ci, cl⟩ := by
+  simp only [Data.indexedSubsetCompl, bind_ok, pure_ok, Prod.mk.injEq] at hi hl
+  obtain ⟨si', hsi, ci', hci, rfl, rfl⟩ := hi
+  obtain ⟨sl', hsl, cl', hcl, rfl, rfl⟩ := hl
+  have hnb : d.inputs.numberOfBatches = d.labels.numberOfBatches := by
+    have := congrArg List.length hd
+    simpa [Data.partitioning, Data.numberOfBatches] using this
+  rw [← hnb] at hcl
+  have part : ∀ (l : List Nat) (x : Data ι) (y : Data κ), d.inputs.indexedSubset l = .ok x → d.labels.indexedSubset l = .ok y →
+      x.partitioning = y.partitioning := by
+    intro l x y hx hy
+    have h1 := (indexedSubset_batches _ _ _ hx).1
+    have h2 := (indexedSubset_batches _ _ _ hy).1
+    have e1 : x.partitioning.map some = l.map (d.inputs.partitioning[·]?) := by
+      have := congrArg (List.map (Option.map List.length)) h1
+      simpa [Data.partitioning, List.map_map, Function.comp_def] using this
+    have e2 : y.partitioning.map some = l.map (d.labels.partitioning[·]?) := by
+      have := congrArg (List.map (Option.map List.length)) h2
+      simpa [Data.partitioning, List.map_map, Function.comp_def] using this
+    rw [hd] at e1
+    have h4 := congrArg (List.filterMap id) (e1.trans e2.symm)
+    simpa [List.filterMap_map] using h4
+  refine ⟨?_, ?_⟩
+  · show si'.partitioning = sl'.partitioning
+    exact part _ si' sl' hsi hsl
+  · show ci'.partitioning = cl'.partitioning
+    exact part _ ci' cl' hci hcl
+
+/-- `splitAtElement` at the two ends: at 0 everything moves to the result, at n nothing does -/
+theorem splitAtElement_ends (d l r : LabeledData ι κ) (k : Nat) (hd : WF d) (h : d.splitAtElement k = .ok (l, r)) :
+    (k = 0 → pairs l = [] ∧ pairs r = pairs d) ∧ (k = d.numberOfElements → pairs r = [] ∧ pairs l = pairs d) := by
+  obtain ⟨_, _, hcat, hlen⟩ := splitAtElement_pairs d l r k hd h
+  constructor
+  · intro h0
+    have : pairs l = [] := List.eq_nil_of_length_eq_zero (by omega)
+    exact ⟨this, by rw [← hcat, this]; rfl⟩
+  · intro hn
+    have hl : (pairs l).length = (pairs d).length := by rw [hlen, hn, pairs_length d hd]
+    have hr : (pairs r).length = 0 := by
+      have := congrArg List.length hcat
+      simp only [List.length_append] at this
+      omega
+    have : pairs r = [] := List.eq_nil_of_length_eq_zero hr
+    exact ⟨this, by rw [← hcat, this, List.append_nil]⟩
+
+/-- `repartition` is defined only for sizes that sum to the element count (the C++ states it as `SIZE_CHECK`; with
+`NDEBUG` a smaller sum silently drops the trailing elements, a larger one reads past the last batch) -/
+theorem repartition_defined_only_for_matching_sum (d d' : Data ε) (sizes : List Nat) (h : d.repartition sizes = .ok d') :
+    sizes.sum = d.numberOfElements := by
+  simp only [Data.repartition, bind_ok, require_ok, pure_ok, decide_eq_true_eq] at h
+  exact h.choose_spec.1
+
+/-- `Data(size, element, batchSize)` / `toDataset`: all batches but the last have exactly `batchSize` elements, the last one
+between 1 and `batchSize`; `batchSize = 0` or `> size` gives a single batch -- which is *empty* for `size = 0` -/
+theorem initializeBatchSizes_layout (n bs : Nat) (l : List Nat) (h : initializeBatchSizes n bs = some l) :
+    (bs = 0 ∨ bs > n → l = [n]) ∧
+    (¬(bs = 0 ∨ bs > n) → ∃ full last, l = List.replicate full bs ++ [last] ∧ 0 < last ∧ last ≤ bs ∧ full * bs + last = n) := by
+  unfold initializeBatchSizes at h
+  constructor
+  · intro hc; rw [if_pos hc] at h; simp only [Option.some.injEq] at h; exact h.symm
+  · intro hc
+    have hb0 : bs ≠ 0 := by omega
+    rw [if_neg hc] at h
+    simp only [cdiv, cmod, hb0, if_false, Option.bind_eq_bind, Option.bind_some, Option.bind_eq_some_iff, csub] at h
+    obtain ⟨full, hfull, last, hlast, hl⟩ := h
+    by_cases h1 : 1 ≤ n / bs + (if n % bs > 0 then 1 else 0)
+    · simp only [h1, if_true, Option.some.injEq] at hfull
+      by_cases h2 : full * bs ≤ n
+      · simp only [h2, if_true, Option.some.injEq] at hlast
+        simp only [Option.pure_def, Option.some.injEq] at hl
+        have hdm := Nat.div_add_mod n bs
+        have hml := Nat.mod_lt n (Nat.pos_of_ne_zero hb0)
+        rw [Nat.mul_comm] at hdm
+        generalize n / bs = q at hfull h1 hdm
+        generalize n % bs = r at hfull h1 hdm hml
+        by_cases hr : r > 0
+        · simp only [hr, if_true] at hfull h1
+          have hf : full = q := by omega
+          subst hf
+          exact ⟨full, last, hl.symm, by omega, by omega, by omega⟩
+        · simp only [hr, if_false] at hfull h1
+          have hq1 : q = full + 1 := by omega
+          have hmul : q * bs = full * bs + bs := by rw [hq1, Nat.succ_mul]
+          exact ⟨full, last, hl.symm, by omega, by omega, by omega⟩
+      · simp [h2] at hlast
+    · simp [h1] at hfull
+
+/-- `toDataset` carries the element shapes of the viewed dataset over (repaired source; F-C03-16) and lays the elements out
+in batches of `batchSize` -/
+theorem toDataset_shape_layout (v : View ι κ) (bs : Nat) (d' : LabeledData ι κ) (hs : v.size ≠ 0) (h : v.toDataset bs = .ok d') :
+    d'.inputs.shape = v.dataset.inputs.shape ∧ d'.labels.shape = v.dataset.labels.shape ∧
+    initializeBatchSizes v.size bs = some d'.inputs.partitioning := by
+  simp only [View.toDataset, hs, if_false, bind_ok, ofOpt_ok, pure_ok] at h
+  obtain ⟨els, hels, sizes, hsz, rfl⟩ := h
+  refine ⟨rfl, rfl, ?_⟩
+  have hsum := initializeBatchSizes_sum _ _ _ hsz
+  have hel := mapM_id_some _ _ hels
+  have hlen : els.length = v.size := by
+    have := congrArg List.length hel
+    simpa [View.elements] using this.symm
+  have h1 : sizes.sum ≤ (els.map (·.1)).length := by simp [hsum, hlen]
+  simp only [Data.partitioning]
+  rw [splitBySizes_lengths _ _ h1, hsz]
+
 /-! ## non-vacuity -/
 example : optimalBatchSizes 10 4 = some [4, 3, 3] := by decide
 example : createDataFromRange [1, 2, 3, 4, 5] 2 [] = .ok (⟨[[1, 2], [3, 4], [5]], []⟩ : Data Nat) := by rfl
@@ -1363,4 +1901,21 @@ example : repartitionByClass (⟨⟨[[10, 11], [12]], []⟩, ⟨[[2, 0], [2]], [
     (if optimalBatchSizes 0 2 = some [] then .ok ⟨⟨[[11], [10, 12]], []⟩, ⟨[[0], [2, 2]], []⟩⟩ else .error .undefined) := by
   first | (simp [optimalBatchSizes]; rfl) | decide | rfl
 
+example : initializeBatchSizes 0 2 = some [0] ∧ initializeBatchSizes 7 3 = some [3, 3, 1] ∧ initializeBatchSizes 6 3 = some [3, 3] := by decide
+example : (⟨[[1, 2], [3], [4]], []⟩ : Data Nat).indexedSubsetCompl [2, 0, 2] = .ok (⟨[[4], [1, 2], [4]], []⟩, ⟨[[3]], []⟩) := by rfl
+example : WInv (⟨⟨⟨[[1, 2], [3]], []⟩, ⟨[[7, 8], [9]], []⟩⟩, ⟨[[10, 20], [30]], []⟩⟩ : WeightedData Nat Nat Nat) :=
+  ⟨⟨rfl, rfl⟩, fun x hx => by simp [Data.partitioning] at hx; omega⟩
+example : WReach (⟨⟨⟨[[1, 2], [3]], []⟩, ⟨[[7, 8], [9]], []⟩⟩, ⟨[[10, 20], [30]], []⟩⟩ : WeightedData Nat Nat Nat)
+    ⟨⟨⟨[[3], [1, 2]], []⟩, ⟨[[9], [7, 8]], []⟩⟩, ⟨[[30], [10, 20]], []⟩⟩ :=
+  WReach.step (.reorder [2, 0, 1]) (WReach.step (.repartition [1, 2]) (WReach.refl _) trivial rfl)
+    (by show [2, 0, 1].Perm (List.range 3); decide) rfl
+/-- two datasets sharing one batch: a structural operation on the copy (here `reorderElements`) leaves the original alone,
+`splitBatch` on it throws -/
+example :
+    let w0 : Shared.World Nat Nat := { hi := [[1, 2, 3]], hl := [[7, 8, 9]], d := [⟨⟨[0], []⟩, ⟨[0], []⟩⟩, ⟨⟨[0], []⟩, ⟨[0], []⟩⟩], v := [] }
+    (w0.reorderElements 1 [2, 1, 0]).map (fun w => (w.value 0, w.value 1)) =
+      .ok (⟨⟨[[1, 2, 3]], []⟩, ⟨[[7, 8, 9]], []⟩⟩, ⟨⟨[[3, 2, 1]], []⟩, ⟨[[9, 8, 7]], []⟩⟩) ∧
+    (w0.splitBatch 1 0 1).toOption.isNone := by
+  intro w0
+  exact ⟨rfl, rfl⟩
 end SharkVerif.C03
